@@ -760,3 +760,179 @@ Definition frame_says (cd : codec) (c : option comp_alg) (tracing : bool) (s : Z
       && (h_stream h =? s)%Z
   | Err _ => false
   end.
+
+(* ========================================================================================== *)
+(* PART 3 — binding typed rows to a statement's columns (scylla-cql-core/src/serialize/row.rs)  *)
+(* ========================================================================================== *)
+(* The built-in SerializeRow impls: (), tuples (arity 1..16), &[T] / Vec<T>, BTreeMap / HashMap
+   <String | &str, T> (by name), and the transparent &T / Box<T>.  How ONE value is serialised for
+   ONE column type is the value codec's business (C01 / C17): here it is a parameter
+   [vser : V -> T -> option cell] (None = SerializeValue::serialize failed). *)
+Inductive row_err :=
+| WrongColumnCount (rust_cols cql_cols : N)
+| ValueMissingForColumn (name : bytes)
+| NoColumnWithName (name : bytes)
+| ColumnSerializationFailed (name : bytes)
+| RowTooManyValues.
+
+(* str's Ord: bytewise lexicographic *)
+Fixpoint bytes_ltb (a b : bytes) : bool :=
+  match a, b with
+  | _, [] => false
+  | [], _ :: _ => true
+  | x :: a', y :: b' => (x <? y) || ((x =? y) && bytes_ltb a' b')
+  end.
+Fixpoint min_bytes (l : list bytes) : option bytes :=
+  match l with
+  | [] => None
+  | x :: r => match min_bytes r with
+              | None => Some x
+              | Some m => Some (if bytes_ltb m x then m else x)
+              end
+  end.
+
+Section Rows.
+  Variables V T : Type.
+  Variable vser : V -> T -> option cell.
+
+  Inductive row :=
+  | RUnit                               (* () and [u8; 0] *)
+  | RSeq (vs : list V)                  (* tuples, &[T], Vec<T> *)
+  | RMap (kvs : list (bytes * V)).      (* maps keyed by column name; keys distinct *)
+
+  (* serialize_column over `ctx.columns().iter().zip(self.iter())` / the unrolled tuple fields *)
+  Fixpoint ser_columns (cols : list (bytes * T)) (vs : list V) : result row_err (list cell) :=
+    match cols, vs with
+    | (name, t) :: cs, v :: r =>
+        match vser v t with
+        | None => Err (ColumnSerializationFailed name)
+        | Some c => match ser_columns cs r with Ok l => Ok (c :: l) | Err e => Err e end
+        end
+    | _, _ => Ok []
+    end.
+
+  Fixpoint assoc (k : bytes) (kvs : list (bytes * V)) : option V :=
+    match kvs with
+    | [] => None
+    | (k', v) :: r => if bytes_eqb k k' then Some v else assoc k r
+    end.
+
+  (* `for col in ctx.columns.iter() { match self.get(col.name()) .. }` *)
+  Fixpoint ser_by_name (kvs : list (bytes * V)) (cols : list (bytes * T)) : result row_err (list cell) :=
+    match cols with
+    | [] => Ok []
+    | (name, t) :: cs =>
+        match assoc name kvs with
+        | None => Err (ValueMissingForColumn name)
+        | Some v =>
+            match vser v t with
+            | None => Err (ColumnSerializationFailed name)
+            | Some c => match ser_by_name kvs cs with Ok l => Ok (c :: l) | Err e => Err e end
+            end
+        end
+    end.
+
+  Definition col_named (cols : list (bytes * T)) (k : bytes) : bool :=
+    existsb (fun c => bytes_eqb k (fst c)) cols.
+
+  Definition row_serialize (cols : list (bytes * T)) (r : row) : result row_err (list cell) :=
+    match r with
+    | RUnit =>
+        match cols with
+        | [] => Ok []
+        | _ :: _ => Err (WrongColumnCount 0 (N.of_nat (List.length cols)))
+        end
+    | RSeq vs =>
+        if (List.length cols =? List.length vs)%nat then ser_columns cols vs
+        else Err (WrongColumnCount (N.of_nat (List.length vs)) (N.of_nat (List.length cols)))
+    | RMap kvs =>
+        match ser_by_name kvs cols with
+        | Err e => Err e
+        | Ok cells =>
+            (* unused_columns: keys that no column removed; the lexicographically first is reported *)
+            match min_bytes (filter (fun k => negb (col_named cols k)) (map fst kvs)) with
+            | None => Ok cells
+            | Some name => Err (NoColumnWithName name)
+            end
+        end
+    end.
+
+  (* SerializedValues::from_serializable = from_closure(|w| row.serialize(ctx, w)), then the
+     `value_count().try_into::<u16>()` check *)
+  Definition bind_row (cols : list (bytes * T)) (r : row) : result row_err (list cell) :=
+    match row_serialize cols r with
+    | Err e => Err e
+    | Ok cells => if N.of_nat (List.length cells) <? 65536 then Ok cells else Err RowTooManyValues
+    end.
+
+  (* ---- specification: "bound values in order" ---- *)
+  (* the value the caller supplied for the i-th bind marker, named [name] *)
+  Definition supplied (r : row) (i : nat) (name : bytes) : option V :=
+    match r with
+    | RUnit => None
+    | RSeq vs => nth_error vs i
+    | RMap kvs => assoc name kvs
+    end.
+  (* the value list is exactly the caller's values, one per bind marker, in marker order *)
+  Definition row_binds (cols : list (bytes * T)) (r : row) (cells : list cell) : Prop :=
+    List.length cells = List.length cols /\
+    forall i name t, nth_error cols i = Some (name, t) ->
+      exists v c, supplied r i name = Some v /\ vser v t = Some c /\ nth_error cells i = Some c.
+  (* nothing the caller supplied is dropped *)
+  Definition row_complete (cols : list (bytes * T)) (r : row) : Prop :=
+    match r with
+    | RUnit => True
+    | RSeq vs => List.length vs = List.length cols
+    | RMap kvs => forall k, In k (map fst kvs) -> col_named cols k = true
+    end.
+End Rows.
+Arguments RUnit {V}.
+Arguments RSeq {V} _.
+Arguments RMap {V} _.
+
+(* ---- a small concrete value universe for the tie (real i32 / String / Vec<u8> / Option / Unset
+   bound to int / text / blob columns); the general theorems do not depend on it ---- *)
+Inductive mval := MInt (z : Z) | MText (b : bytes) | MBlob (b : bytes) | MNull | MUnset.
+Inductive mty := TInt | TText | TBlob.
+Definition mini_ser (v : mval) (t : mty) : option cell :=
+  match v, t with
+  | MInt z, TInt => Some (CVal (sbe 4 z))        (* exact_type_check!(typ, Int) *)
+  | MText b, TText => Some (CVal b)
+  | MBlob b, TBlob => Some (CVal b)
+  | MNull, _ => Some CNull                       (* Option::None: set_null, no type check *)
+  | MUnset, _ => Some CUnset
+  | _, _ => None
+  end.
+
+(* ---- the 2^31 boundaries ([long string], [bytes], value cells): the tie's `G` cases ------------ *)
+(* One component [x] of a request is made huge (untouched zero bytes in the runner); everything
+   else is minimal.  [big_outcome k n] is what the code does for |x| = n, sizes only: Ok body-size
+   or the refusal class (Request_proofs.int_boundary). *)
+Inductive big_kind := BigPrepare | BigQuery | BigAuth | BigCell | BigBatch.
+Definition plain_params (vals : list cell) : qparams := mkQP One None None None None false vals.
+Definition big_request (k : big_kind) (x : bytes) : request :=
+  match k with
+  | BigPrepare => Prepare x
+  | BigQuery => Query x (plain_params [])
+  | BigAuth => AuthResponse (Some x)
+  | BigCell => Query [] (plain_params [CVal x])
+  | BigBatch => Batch Logged [SQuery x] [[]] One None None
+  end.
+Definition big_err (k : big_kind) : ser_err :=
+  match k with
+  | BigPrepare => ErrPrepareString
+  | BigQuery => ErrQueryString
+  | BigAuth => ErrAuthResponse
+  | BigCell => ErrCellOverflow
+  | BigBatch => ErrBatchStatement 0 StmtString
+  end.
+Definition big_body_len (k : big_kind) (n : N) : N :=
+  match k with
+  | BigPrepare => 4 + n
+  | BigQuery => 4 + n + 3
+  | BigAuth => 4 + n
+  | BigCell => 4 + 3 + 2 + 4 + n
+  | BigBatch => batch_body_len 1 n
+  end.
+Definition big_outcome (k : big_kind) (n : N) : result ser_err N :=
+  if n <? 2147483648 then Ok (big_body_len k n) else Err (big_err k).
